@@ -8,10 +8,12 @@ pub struct Prop {
     pub replay: fn(&Ctx, &str, &Value) -> Result<Outcome, String>,
 }
 
+pub mod c01;
 pub mod c21;
 
 pub fn registry() -> Vec<Prop> {
     vec![
+        Prop { id: "C01", run: c01::run, replay: c01::replay },
         Prop { id: "C21", run: c21::run, replay: c21::replay },
     ]
 }
